@@ -5,8 +5,8 @@ pub mod track_distance;
 use crate::prelude::TrackBuilder;
 use crate::track::notify::{ChangeNotifier, NoopNotifier};
 use crate::track::{
-    Feature, Observation, ObservationAttributes, ObservationMetric, ObservationMetricOk, Track,
-    TrackAttributes, TrackStatus,
+    Feature, ObservationAttributes, ObservationMetric, ObservationMetricOk, Track, TrackAttributes,
+    TrackStatus,
 };
 use crate::Errors;
 use anyhow::Result;
@@ -563,20 +563,17 @@ where
         #[allow(clippy::significant_drop_in_scrutinee)]
         match tracks.get_mut(&track_id) {
             None => {
-                let mut t = Track {
-                    notifier: self.notifier.clone(),
-                    attributes: self.default_attributes.clone(),
-                    track_id,
-                    observations: HashMap::from([(
+                // a missing track is created exactly as building it externally and inserting it
+                // would: attribute update, observation, optimisation and change notifications
+                let t = self
+                    .new_track(track_id)
+                    .observation((
                         feature_class,
-                        vec![Observation(feature_attribute, feature)],
-                    )]),
-                    metric: self.metric.clone(),
-                    merge_history: vec![track_id],
-                };
-                if let Some(attributes_update) = &attributes_update {
-                    t.update_attributes(attributes_update)?;
-                }
+                        feature_attribute,
+                        feature,
+                        attributes_update,
+                    ))
+                    .build()?;
 
                 tracks.insert(track_id, t);
             }
